@@ -25,7 +25,7 @@ type seamconfResult struct {
 func seamconfRun(trials int) seamconfResult {
 	var res seamconfResult
 	distinct := map[string]bool{}
-	for _, shape := range []string{"readonly", "assign", "rename"} {
+	for _, shape := range []string{"readonly", "assign", "rename", "delete-next-then-recreate"} {
 		for _, size := range []int{1, 2, 3, 4, 9} {
 			for t := 0; t < trials; t++ {
 				native := map[string]int{}
@@ -38,6 +38,19 @@ func seamconfRun(trials int) seamconfResult {
 					switch shape {
 					case "assign":
 						m[k] = m[k] + 100
+					case "delete-next-then-recreate":
+						// deletes another (possibly not yet reached) key and re-creates it two iterations later
+						var n int
+						fmt.Sscanf(strings.TrimLeft(k, "k"), "%d", &n)
+						victim := fmt.Sprintf("k%d", (n+1)%size)
+						if strings.Contains(k, "'") || size < 2 {
+							break
+						}
+						if _, ok := m[victim]; ok && m[k]%2 == 0 {
+							delete(m, victim)
+						} else if !ok {
+							m[victim] = 1000
+						}
 					case "rename":
 						if strings.Count(k, "'") < 2 {
 							v := m[k]
@@ -106,5 +119,5 @@ func seamconfReport(w *report.W) {
 		return
 	}
 	w.P.TracesValidated += int64(r.Traces)
-	w.P.Bounds["seam_conformance"] = fmt.Sprintf("%d native traces (3 loop shapes x maps of 1,2,3,4,9 entries) all accepted by the seam automaton; %d distinct traces; %d native runs revisited a renamed key", r.Traces, r.Distinct, r.Revisits)
+	w.P.Bounds["seam_conformance"] = fmt.Sprintf("%d native traces (4 loop shapes x maps of 1,2,3,4,9 entries) all accepted by the seam automaton; %d distinct traces; %d native runs revisited a renamed key", r.Traces, r.Distinct, r.Revisits)
 }
